@@ -920,11 +920,49 @@ func c17Options(c *Ctx, validate *ssa.Function) {
 			if !ok || ir.TypeStr(f.Type) != "*mcp/internal/retry.Config" {
 				return
 			}
-			if _, isParam := st.Val.(*ssa.Parameter); isParam {
-				return // a setter forwarding an already validated config
-			}
 			if f2, _, ok := ir.LoadedField(st.Val); ok && ir.TypeStr(f2.Type) == "*mcp/internal/retry.Config" {
 				return // copying the client's validated config to the transport
+			}
+			if p, isParam := st.Val.(*ssa.Parameter); isParam {
+				// a setter: judged by what its library callers hand it (a member that holds a validated configuration
+				// already, or something that descends from Validate)
+				idx := -1
+				for i, q := range fn.Params {
+					if q == p {
+						idx = i
+					}
+				}
+				callers, good := 0, true
+				fromMember := true
+				for _, e := range ir.Callers(c.G, fn) {
+					if e.Site == nil || !c.P.IsLib(e.Caller.Func) {
+						continue
+					}
+					args := e.Site.Common().Args
+					off := 0
+					if e.Site.Common().IsInvoke() {
+						off = 1
+					}
+					if idx-off < 0 || idx-off >= len(args) {
+						continue
+					}
+					a := args[idx-off]
+					if f3, _, ok := ir.LoadedField(a); ok && ir.TypeStr(f3.Type) == "*mcp/internal/retry.Config" {
+						continue
+					}
+					fromMember = false
+					callers++
+					if !derivesFromValidate(c, validate, e.Caller.Func, a, 0, map[ssa.Value]bool{}) {
+						good = false
+					}
+				}
+				if fromMember || callers == 0 {
+					return // a setter forwarding an already validated config
+				}
+				n++
+				c.R.Check(good, "R-clamp", "retry config stored in "+fname(fn), c.Pos(st.Pos()), "every caller hands the setter a configuration that descends from Validate()",
+					sprintf("%s stores the retry configuration its callers hand it, and one of them passes one that did not pass through Config.Validate: out-of-range values reach the executor", fname(fn)))
+				return
 			}
 			n++
 			construct := "retry config stored in " + fname(fn)
@@ -1121,6 +1159,57 @@ func derivesFromBody(v ssa.Value, d int) bool {
 // struct T, T also receives the response's StatusCode in another member, and the retry classifier handles T through
 // errors.As and returns on that edge before it looks at any error text.
 func classifiedByCode(c *Ctx, errf *ssa.Call) bool {
+	if classifiedByCodeAt(c, errf) {
+		return true
+	}
+	// the text is made by a helper that returns it: every retried caller of the helper wraps what it gets in the
+	// typed error (callers outside the retried operations are not classified at all)
+	fn := errf.Parent()
+	returned := false
+	ir.EachInstr(fn, func(_ *ssa.BasicBlock, _ int, in ssa.Instruction) {
+		if ret, ok := in.(*ssa.Return); ok {
+			for _, r := range ir.Results(ret) {
+				if unspill(r) == ssa.Value(errf) {
+					returned = true
+				}
+			}
+		}
+	})
+	if !returned || fn.Signature.Results().Len() != 1 {
+		return false
+	}
+	exec := c.P.Func(retryPkg, "Execute")
+	var ops []*ssa.Function
+	for _, f := range c.P.LibFns {
+		ir.EachCall(f, func(call ssa.CallInstruction) {
+			if exec == nil || ir.StaticCallee(call) != exec {
+				return
+			}
+			for _, a := range call.Common().Args {
+				if mc, ok := a.(*ssa.MakeClosure); ok {
+					if cf, ok := mc.Fn.(*ssa.Function); ok {
+						ops = append(ops, cf)
+					}
+				}
+			}
+		})
+	}
+	reach := c.ReachSync(ops...)
+	n := 0
+	for _, e := range ir.Callers(c.G, fn) {
+		site, ok := e.Site.(*ssa.Call)
+		if !ok || !reach[e.Caller.Func] {
+			continue
+		}
+		n++
+		if !classifiedByCodeAt(c, site) {
+			return false
+		}
+	}
+	return n > 0
+}
+
+func classifiedByCodeAt(c *Ctx, errf *ssa.Call) bool {
 	classify := c.P.Func(retryPkg, "IsRetryableError")
 	if classify == nil || errf.Referrers() == nil {
 		return false
@@ -2056,4 +2145,83 @@ func isClampHelper(f *ssa.Function) bool {
 		}
 	}
 	return gotLow && gotHigh && gotV
+}
+
+// derivesFromValidate: the value descends from a call of Config.Validate — through local cells, copies, library helpers
+// that return what they made of it (clone, a converter) and parameters (every library caller).
+func derivesFromValidate(c *Ctx, validate *ssa.Function, fn *ssa.Function, v ssa.Value, d int, seen map[ssa.Value]bool) bool {
+	if v == nil || d > 10 || seen[v] {
+		return false
+	}
+	seen[v] = true
+	switch x := v.(type) {
+	case *ssa.Call:
+		sc := ir.StaticCallee(x)
+		if sc == validate {
+			return true
+		}
+		if sc != nil && c.P.IsLib(sc) && sc.Blocks != nil {
+			for _, b := range sc.Blocks {
+				if ret, ok := b.Instrs[len(b.Instrs)-1].(*ssa.Return); ok {
+					for _, res := range ir.Results(ret) {
+						if derivesFromValidate(c, validate, sc, res, d+1, seen) {
+							return true
+						}
+					}
+				}
+			}
+		}
+		for _, a := range x.Call.Args {
+			if derivesFromValidate(c, validate, fn, a, d+1, seen) {
+				return true
+			}
+		}
+	case *ssa.Alloc:
+		for _, r := range *x.Referrers() {
+			if st, ok := r.(*ssa.Store); ok && st.Addr == ssa.Value(x) && derivesFromValidate(c, validate, fn, st.Val, d+1, seen) {
+				return true
+			}
+		}
+	case *ssa.UnOp:
+		return derivesFromValidate(c, validate, fn, x.X, d+1, seen)
+	case *ssa.Extract:
+		return derivesFromValidate(c, validate, fn, x.Tuple, d+1, seen)
+	case *ssa.MakeInterface:
+		return derivesFromValidate(c, validate, fn, x.X, d+1, seen)
+	case *ssa.ChangeType:
+		return derivesFromValidate(c, validate, fn, x.X, d+1, seen)
+	case *ssa.Phi:
+		for _, e := range x.Edges {
+			if derivesFromValidate(c, validate, fn, e, d+1, seen) {
+				return true
+			}
+		}
+	case *ssa.Parameter:
+		idx := -1
+		for i, q := range fn.Params {
+			if q == x {
+				idx = i
+			}
+		}
+		n := 0
+		for _, e := range ir.Callers(c.G, fn) {
+			if e.Site == nil || !c.P.IsLib(e.Caller.Func) {
+				continue
+			}
+			args := e.Site.Common().Args
+			off := 0
+			if e.Site.Common().IsInvoke() {
+				off = 1
+			}
+			if idx-off < 0 || idx-off >= len(args) {
+				continue
+			}
+			n++
+			if !derivesFromValidate(c, validate, e.Caller.Func, args[idx-off], d+1, seen) {
+				return false
+			}
+		}
+		return n > 0
+	}
+	return false
 }
